@@ -193,3 +193,50 @@ Check (C09_bb_level_statistics : forall o sizes input ids outs size c,
     /\ chrom_rsecs exact (o_ips o) size c = secs
     /\ Forall (BedTile.zstats_spec (depth (sw_entries c))) (concat secs)
     /\ (forall x, 0 < depth (sw_entries c) x -> BedTile.covered_by (concat secs) x)).
+
+From BT Require Import Spec.Inflate Proofs.InflateFuel Proofs.InflateStored Proofs.InflateHuffman Proofs.InflateThms.
+Check (C09.C09_inflate_never_fuel : forall input, inflate input <> Fuel /\ inflate input <> Panic).
+Check (C09.C09_zlib_decode_res_total : forall input,
+  (exists d, zlib_decode_res input = Ok d) \/ (exists e, zlib_decode_res input = Err e)).
+Check (C09.C09_inflate_step_consumes : forall st st1, step st = Ok (inl st1) -> (blen (i_bs st1) < blen (i_bs st))%nat).
+Check (C09.C09_adler32_closed_form : forall l,
+  adler32 l = (sumN (prefix_sums 1 l)) mod 65521 * 65536 + (1 + sumN l) mod 65521).
+Check (C09.C09_adler32_fits_u32 : forall l, adler32 l < 4294967296).
+Check (C09.C09_adler32_streaming : forall a b,
+  adler32 (a ++ b) = let st := fold_left adler_step b (adler_state a) in snd st * 65536 + fst st).
+Check (C09.C09_lz_copy_correct : forall len dist out,
+  len <= 258 -> 1 <= dist -> dist <= Nlen out ->
+  lz_copy 258 len dist out = lz_copy_spec (N.to_nat len) dist out).
+Check (C09.C09_length_codes_in_range : forall i s len s1, base_extra len_table E_CODE i s = Ok (len, s1) -> 3 <= len <= 258).
+Check (C09.C09_distance_codes_in_range : forall i s d s1, base_extra dist_table E_DCODE i s = Ok (d, s1) -> 1 <= d <= 32768).
+Check (C09.C09_huffman_tree_decodes_canonical_code : forall kind bad lens t, build kind bad lens = Ok t ->
+  forall sym l, nth_error lens sym = Some l -> l <> 0 ->
+  forall r rest, hwalk t (code_bits (N.to_nat l) (canonical_code lens sym) ++ r, rest) = Ok (N.of_nat sym, (r, rest))).
+Check (C09.C09_huffman_canonical_code_prefix_free : forall kind bad lens t, build kind bad lens = Ok t ->
+  forall s1 s2 l1 l2 tail, nth_error lens s1 = Some l1 -> nth_error lens s2 = Some l2 -> l1 <> 0 -> l2 <> 0 ->
+  code_bits (N.to_nat l1) (canonical_code lens s1) ++ tail = code_bits (N.to_nat l2) (canonical_code lens s2) ->
+  s1 = s2).
+Check (C09.C09_stored_len_check_is_complement : forall len nlen, len < 65536 -> nlen < 65536 ->
+  (len + nlen =? 65535) = (nlen =? N.lnot len 16)).
+Check (C09.C09_zlib_decode_stored : forall b, zlib_decode (zlib_store b) = Some b).
+Check (C09.C09_zlib_store_one_block : forall b, Nlen b < 65536 ->
+  zlib_store b = [120; 1] ++ [1; Nlen b mod 256; Nlen b / 256; (65535 - Nlen b) mod 256; (65535 - Nlen b) / 256] ++ b
+                 ++ be32 (adler32 b)).
+Check (C09.C09_decode_encode_zlib_stored : forall fp o sizes inp bs,
+  bw_write_z zlib_store fp o sizes inp = Ok bs -> opts_ok o -> input_ok sizes inp -> Nlen bs < U64 ->
+  Forall (fun c : name => c <> []) (map fst (runs inp)) ->
+  o_sort_all o = true ->
+  Forall (fun z => z < W32) (zoom_sizes_single o) ->
+  exists ids outs sum data kept ubuf,
+    bw_collect fp o sizes inp = Ok (ids, outs, sum, data)
+    /\ incl kept (zoom_sizes_single o) /\ inc_from 0 kept /\ (ubuf = 0 <-> o_compress o = false)
+    /\ decode bs (zlib_inflate_at bs) = Some (content_of fp o sizes ids outs sum ubuf kept)).
+Check (C09.C09_decode_encode_zlib_stored_multipass : forall fp o sizes inp bs,
+  bw_write_multipass_z zlib_store fp o sizes inp = Ok bs -> opts_ok o -> input_ok sizes inp -> Nlen bs < U64 ->
+  Forall (fun c : name => c <> []) (map fst (runs inp)) ->
+  o_sort_all o = true ->
+  manual_u32 o ->
+  exists ids outs sum data kept ubuf,
+    bw_collect fp o sizes inp = Ok (ids, outs, sum, data)
+    /\ inc_from 0 kept /\ (ubuf = 0 <-> o_compress o = false)
+    /\ decode bs (zlib_inflate_at bs) = Some (content_of fp o sizes ids outs sum ubuf kept)).
